@@ -29,7 +29,7 @@ ASSUMPTIONS = [
 ]
 SHARDS = {"quick": 8, "thorough": 16}
 MIN_REACH = {
-    "another_session_wrote_between_sow_and_reap": {"quick": 4, "thorough": 40},
+    "another_session_wrote_between_sow_and_reap": {"quick": 2, "thorough": 40},
     "resown_after_a_farmer_constant_was_changed": {"quick": 6, "thorough": 80},
     "pipelines_compared": {"quick": 120, "thorough": 1200},
     "harvester_files_compared": {"quick": 15, "thorough": 300},
